@@ -48,10 +48,11 @@ func (l *vfLis) Accept() (net.Conn, error) {
 	}
 }
 func (l *vfLis) Close() error {
-	if !l.isClosed {
-		l.isClosed = true
-		close(l.closed)
+	if l.isClosed {
+		return vfErrClosed // as a real listening socket: closing it again is an error
 	}
+	l.isClosed = true
+	close(l.closed)
 	return nil
 }
 func (l *vfLis) Addr() net.Addr { return &net.TCPAddr{Port: 1} }
